@@ -364,7 +364,7 @@ def gen_ai_case(rng, tier):
         if rng.random() < 0.08:
             base = gen_malformed(rng, tier)
         else:
-            base = gen_valid(rng, tier, rng.choice(["a", "a", "aaaa", "aaaa", "ptr", "mx"]))
+            base = gen_valid(rng, tier, rng.choice(["a", "a", "a", "aaaa", "aaaa", "aaaa", "ptr", "mx"]))
         return "pia:%d:%d:%d:%s" % (port, cno, pre, base)
     if r < 0.7:
         if rng.random() < 0.5:
@@ -375,12 +375,12 @@ def gen_ai_case(rng, tier):
     if r < 0.9:
         v6 = rng.random() < 0.4
         pool = SORTLISTS6 if v6 else SORTLISTS4
-        k = rng.choice([0, 1, 2, 3, 5])
-        sl = [rng.choice(pool) for _ in range(k)]
+        k = rng.choice([0, 1, 2, 2, 3, 3, 5])
+        sl = rng.sample(pool[:4] if rng.random() < 0.7 else pool, min(k, 4 if len(pool) >= 4 else len(pool)))
         if rng.random() < 0.2:
             sl += [rng.choice(SORTLISTS4 + SORTLISTS6)]   # foreign-family entries are skipped
             rng.shuffle(sl)
-        n = rng.choice([0, 1, 2, 3, 5, 9, 20, 60 if tier == "quick" else 200])
+        n = rng.choice([0, 1, 2, 3, 3, 5, 5, 9, 9, 20, 20, 60 if tier == "quick" else 200])
         addrs = [(rnd_addr6(rng) if v6 else rnd_addr4(rng)) for _ in range(n)]
         if addrs and rng.random() < 0.3:
             addrs += [rng.choice(addrs) for _ in range(rng.choice([1, 3]))]   # duplicates
